@@ -4,8 +4,11 @@
 
   `cfg` is built from Generated/C15.lean, which the translator rewrites from /repo's source on
   every run; `cfg_good` is the proof obligation that breaks when the constants 0.0001 / 2 / 0.04,
-  the check-before-sleep order, the `>=` of the deadline check, the `>= 0` validation of
-  `Process.wait` or the `1.0 / len(alive)` slice of `wait_procs` change.
+  the check-before-sleep order, the `>=` of the deadline check or the `>= 0` validation of
+  `Process.wait` change (the `1.0 / len(alive)` slice of `wait_procs` is NOT part of `cfg_good`: the
+  property theorems hold for any slice; it has its own obligation `cfg_wait_procs_slice`, a
+  characterisation of the code). Further obligations: `cfg_popen_validates_first`,
+  `cfg_wait_procs_shape`, `cfg_pid_test`, `cfg_waitpid_flags`, `cfg_check_gone_order`.
 
   Every theorem quantifies over ALL environments (child with any status word / non-child /
   never existed; any exit instant or none; any EINTR pattern), all timeouts, start instants and
@@ -685,8 +688,10 @@ theorem C15_popen_wait_negative : C15_popen_wait_negative_Full cfg :=
 
 /-! ### EINTR at the deadline (finding C15-eintr-deadline) cannot be repaired inside `wait_pid` -/
 
-/-- ANY procedure that learns about the process through waitpid answers only — whatever it does
-    with them, however often it retries — gives the same answer for a dead child and for a child
+/-- (Scope: procedures that see ONLY the answers of waitpid — not `pid_exists`, not /proc, where a
+    dead unreaped child shows as a zombie; a repair that also reads those is not excluded by this
+    theorem.) ANY procedure that learns about the process through waitpid answers only — whatever it
+    does with them, however often it retries — gives the same answer for a dead child and for a child
     that never ends when every call is interrupted. So it either reports the dead child as timed
     out (`timeoutSound` fails), or gives the living one an exit status (`neverEarly` fails), or
     does not come back / raises something else. psutil's test-suite (test_os_waitpid_eintr)
@@ -904,10 +909,14 @@ example : ∃ w alive, LInv exEnv true (dedup [1, 2, 1]) w alive ∧ w.gone = [1
     [1, 2, 1] (some 0) exW w' [2] exW_fresh h
   exact ⟨w', [2], hl, hgone, rfl, hcb⟩
 
-/-- `set(procs)`: of several EQUAL objects (two `Process`/`Popen` objects of one process hash
-    alike and compare equal) exactly one survives — the one that comes FIRST in the list. It is the
-    object `wait_procs` waits on, sets `returncode` on, passes to the callback and returns; the
-    others are never touched. -/
+/-- `set(procs)` as a list function (`setOf`): of several EQUAL objects (two `Process`/`Popen` objects
+    of one process hash alike and compare equal) exactly one survives — the one that comes FIRST in
+    the list. This theorem is about `setOf` ALONE: `waitProcs`/`waitProcsM` work on pids and never
+    call it, so that the surviving object is the one `wait_procs` waits on, sets `returncode` on,
+    calls back and returns is NOT proved here — it is checked on every run by the identity
+    observations of the correspondence (driver `survivors` = `setOf items` against the positions of
+    the objects the real `wait_procs` returned / called back / waited on), and rests on CPython's
+    set semantics (TRUSTED). -/
 theorem C15_set_keeps_first (l : List Item) :
     ((setOf l).map Item.pid).Nodup ∧
     (∀ p, (∃ x ∈ setOf l, x.pid = p) ↔ ∃ x ∈ l, x.pid = p) ∧
@@ -1182,5 +1191,22 @@ theorem C15_never_existed_at_once_counterexample : ¬ C15_never_existed_at_once_
   simp only [obsWait] at h1
   rw [h2] at h1
   simp at h1
+
+/-- proof obligation (CHARACTERISATION of the code, not a clause of the property statement): the
+    per-process slice of `wait_procs` is `1.0 / len(alive)` — the source's "every complete iteration
+    (all processes) will last max 1 sec". `2.0 / len(alive)` stops this building. -/
+theorem cfg_wait_procs_slice : cfg.sliceN = 1 := by decide
+
+/-- characterisation: the slices of one pass over the `alive` set add up to exactly one second -/
+theorem C15_wait_procs_pass_budget (alive : List Nat) (h : alive ≠ []) :
+    maxTimeout cfg alive * (alive.length : Rat) = 1 := by
+  unfold maxTimeout
+  rw [cfg_wait_procs_slice]
+  have hl : (alive.length : Rat) ≠ 0 := by
+    cases alive with
+    | nil => exact absurd rfl h
+    | cons a l => simp; positivity
+  field_simp
+  simp
 
 end Psutil.C15
